@@ -200,6 +200,25 @@ func (c *Ctx) verify() (err error) {
 		next := c.run(st)
 		work = append(work, next...)
 	}
+	// a ghost statement whose anchor no path ever reached says nothing (a misspelt callee, a call that is gone):
+	// the clauses that rely on it would hold for the wrong reason
+	hasAbstract := false
+	for _, ls := range c.Spec.Loops {
+		if ls.Abstract {
+			hasAbstract = true
+		}
+	}
+	for _, g := range c.Spec.Ghost {
+		if c.ghostFired[g] {
+			continue
+		}
+		if hasAbstract {
+			c.noteOnce(fmt.Sprintf("ghost statement at `%s` was not reached (the function has abstracted loops)", g.Anchor))
+			continue
+		}
+		c.Obls = append(c.Obls, &Obligation{Name: fmt.Sprintf("%s/ghost-anchor@%s", c.Key, sanitize(g.Anchor)), Kind: "ghost-anchor", Func: c.Key,
+			Desc: "the ghost statement anchored at `" + g.Anchor + "` is reached on at least one path: " + g.Src, Pos: fmt.Sprintf("%s:%d", g.File, g.Line), Path: s.Path, Goal: "false"})
+	}
 	return nil
 }
 
@@ -1629,6 +1648,10 @@ func (s *State) runGhost(fr *Frame, anchor string) {
 		if g.Anchor != anchor {
 			continue
 		}
+		if c.ghostFired == nil {
+			c.ghostFired = map[*GhostStmt]bool{}
+		}
+		c.ghostFired[g] = true
 		env := c.funcEnv(s, fr, anchor == "entry") // at entry the parameters have not been copied to their local cells yet
 		for k, v := range s.ghostExtra {
 			env.Vars[k] = v
